@@ -246,6 +246,7 @@ def compare(actual, expected, path='value'):
 
 
 _SOLVER = [None]
+_UNDER = [None]        # "the last call returned normally": what decoding a result may assume (results exist only on those paths)
 
 
 def concrete(term, what, under=None):
@@ -259,6 +260,8 @@ def concrete(term, what, under=None):
         s = z3.Solver()
         s.set('timeout', 20000)
         s.add(s0.assertions())
+        if under is None:
+            under = _UNDER[0]
         if under is not None:
             s.add(under)
         if s.check() == z3.sat:
@@ -283,6 +286,15 @@ class NodeCtx:
         rels = [SRC[s] if s in SRC else s for s in sources] + [kernel_src(k) for k in kernels]
         self.m = MCtx(rels, unwind=unwind, stubs=stubs, max_instrs=1500000)
         _SOLVER[0] = self.m.s
+        _UNDER[0] = None
+        call0 = self.m.call
+
+        def call(fname, args):
+            out = call0(fname, args)
+            raised = getattr(out, 'raised', None)
+            _UNDER[0] = z3.Not(raised) if raised is not None else None
+            return out
+        self.m.call = call
 
         def lazy(name):
             # extern "C" kernels are loaded on demand from the file that defines them
